@@ -12,26 +12,26 @@ UF = {"crypto/belt/belt_block.c": ["beltBlockEncr", "beltBlockEncr2", "beltBlock
 FN = {"ecb_e": "beltECBEncr", "ecb_d": "beltECBDecr", "cbc_e": "beltCBCEncr", "cbc_d": "beltCBCDecr", "cfb_e": "beltCFBEncr", "cfb_d": "beltCFBDecr",
       "ctr": "beltCTR", "bde_e": "beltBDEEncr", "bde_d": "beltBDEDecr", "sde_e": "beltSDEEncr", "sde_d": "beltSDEDecr", "mac": "beltMAC",
       "hmac": "beltHMAC", "hash": "beltHash", "kwp_w": "beltKWPWrap", "kwp_u": "beltKWPUnwrap", "dwp_u": "beltDWPUnwrap", "che_u": "beltCHEUnwrap"}
-CB = ("ecb_e", "ecb_d", "cbc_e", "cbc_d", "mac", "kwp_w", "kwp_u")     # CBMC-tractable (measured); cfb/ctr: no answer in 900 s under load
+CB = ("ecb_e", "ecb_d", "cbc_e", "cbc_d", "kwp_w", "kwp_u")     # CBMC-tractable (measured); cfb/ctr: no answer in 900 s under load
 GROUPS = []
 for f, fn in FN.items():
     for cnt in (15, 17, 32, 48):
         GROUPS.append(G("hl.%s.cnt%d.search" % (f, cnt), "harness/C09/hl_belt.c", "h_" + f, [s for s in BELT if not s.endswith("core/mem.c")],
                         defs=["CNT=%d" % cnt], level="N", backend="native", search=40000, fn=[fn, "blobCreate", "blobClose"],
-                        native_srcs=[s for s in BELT if not s.endswith("core/mem.c")] + ["../verif/stubs/mem_ghost.c"],
+                        native_srcs=[s for s in BELT if not s.endswith("core/mem.c")] + ["@stubs/mem_ghost.c"],
                         note="native run with allocation-failure injection and wipe tracking (real primitives, ASan); NOT proof"))
     if f in CB:
         for cnt in (15, 33):
             GROUPS.append(G("hl.%s.cnt%d" % (f, cnt), "harness/C09/hl_belt.c", "h_" + f, BELT, stubs=["stubs/belt_uf.c", "stubs/mem_ghost.c"], strip=UF,
                             defs=["CNT=%d" % cnt], level="B", bound="data length %d octets; key length, failure ordinal and contents symbolic" % cnt,
                             unwind=80, spec_unwind=90, search=40000, split=True, timeout=1200, mem_gb=16, fn=[fn, "blobCreate", "blobClose"],
-                            native_srcs=[s for s in BELT if not s.endswith("core/mem.c")] + ["../verif/stubs/mem_ghost.c"]))
+                            native_srcs=[s for s in BELT if not s.endswith("core/mem.c")] + ["@stubs/mem_ghost.c"]))
 MORE = ["src/crypto/bels.c", "src/crypto/brng.c", "src/crypto/botp.c", "src/crypto/bash/bash_hash.c", "src/crypto/bash/bash_f.c",
         "src/crypto/belt/belt_krp.c", "src/crypto/belt/belt_pbkdf.c", "src/crypto/belt/belt_hmac.c", "src/crypto/belt/belt_hash.c", "src/core/blob.c"]
 for ent, fns in (("h_bels", ["belsShare3", "belsShare2", "belsRecover2"]), ("h_kdf", ["beltKRP", "beltPBKDF2"]),
                  ("h_rng_otp", ["brngCTRRand", "brngHMACRand", "botpHOTPRand", "bashHash"])):
     GROUPS.append(G("hl2.%s.search" % ent[2:], "harness/C09/hl_more.c", ent, MORE, level="N", backend="native", search=60000, fn=fns,
-                    native_srcs=MORE + ["../verif/stubs/mem_ghost.c"],
+                    native_srcs=MORE + ["@stubs/mem_ghost.c"],
                     note="native run with allocation-failure injection and wipe tracking; NOT proof"))
 TRUSTED = ["stubs/mem_ghost.c: allocator contracts with ghost state (memAlloc / memFree / memWipe)", "stubs/belt_uf.c"]
 ASSUMPTIONS = ["errors that depend on number-theoretic verdicts are out of scope of these groups"]
